@@ -36,7 +36,7 @@ Definition jolt_replay_d (tolerance max_distance_squared sanity_check : float)
   end.
 
 (** boolean test: (directions, code, iterations); code 1 True, 0 False, -1 index error,
-    -2 assertion, -3 trace exhausted, -5 no-progress arm (compiled: TypeError; interpreted: False) *)
+    -2 assertion, -3 trace exhausted *)
 Definition jolt_replay_i (tolerance : float) (trace : list (V3 float * V3 float))
   : list (list float) * Z * Z :=
   let '(dirs, r) := @replay_intersection float FOps (tolerance * tolerance)%float trace istate0 0%nat [] in
@@ -45,7 +45,6 @@ Definition jolt_replay_i (tolerance : float) (trace : list (V3 float * V3 float)
   | XErr => (ds, -1, 0)
   | XAssert => (ds, -2, 0)
   | XFuel => (ds, -3, 0)
-  | XNoProgress it => (ds, -5, Z.of_nat it)
   | XAns true it => (ds, 1, Z.of_nat it)
   | XAns false it => (ds, 0, Z.of_nat it)
   end.
